@@ -5,7 +5,7 @@ VERIF = os.path.dirname(os.path.dirname(os.path.abspath(__file__)))
 props = [json.loads(l)['id'] for l in open(os.path.join(VERIF, 'properties.jsonl'))]
 
 BR = ("Bridge.lean ties the finite-domain functions involved (name characters, type classes, array acceptance, format "
-      "acceptance, tab-width clamp, string escapes) to tables the real code is made to print over its whole domain on every run. ")
+      "acceptance and the stored/effective format under both default formats, tab-width clamp, string escapes) to tables the real code is made to print over its whole domain on every run. ")
 TB = ("Trusted base: Lean 4.33 kernel (+ leanchecker in the thorough tier); axioms propext, Classical.choice, Quot.sound only "
       "(audited by #print axioms on every run; no sorry/admit/native_decide/bv_decide/user axioms); tools/translate.py; the "
       "correspondence harness and its generators; glibc printf/strtod/strto* specifications. ")
